@@ -21,7 +21,10 @@ import (
 	"runtime"
 	"runtime/debug"
 	"sort"
+	"strconv"
 	"sync"
+	"sync/atomic"
+	"time"
 )
 
 // Result is one line of harness output.
@@ -35,6 +38,7 @@ type Result struct {
 	Got   interface{} `json:"got,omitempty"`
 	Panic string      `json:"panic,omitempty"`
 	Extra interface{} `json:"extra,omitempty"`
+	Skip  bool        `json:"skip,omitempty"`
 }
 
 type command struct {
@@ -128,13 +132,35 @@ func replayAll(a *args, fn func(i int, raw json.RawMessage) Result) error {
 	res := make([]Result, len(recs))
 	var wg sync.WaitGroup
 	sem := make(chan struct{}, max(1, a.par))
+	// see hx.ReplayAll: position of a re-executed record in its batch, and a deadline per record
+	base := 0
+	if v, err := strconv.Atoi(os.Getenv("VERIF_INDEX_BASE")); err == nil {
+		base = v
+	}
+	deadline := 120 * time.Second
+	if v, err := strconv.Atoi(os.Getenv("VERIF_RECORD_TIMEOUT")); err == nil && v > 0 {
+		deadline = time.Duration(v) * time.Second
+	}
+	var hung int32
 	for i := range recs {
 		wg.Add(1)
 		sem <- struct{}{}
 		go func(i int) {
 			defer wg.Done()
 			defer func() { <-sem }()
-			res[i] = safely(i, func() Result { return fn(i, recs[i]) })
+			if atomic.LoadInt32(&hung) >= 3 {
+				res[i] = Result{I: i, OK: true, Skip: true, What: "not run: earlier records hung"}
+				return
+			}
+			done := make(chan Result, 1)
+			go func() { done <- safely(i, func() Result { return fn(i+base, recs[i]) }) }()
+			select {
+			case r := <-done:
+				res[i] = r
+			case <-time.After(deadline):
+				atomic.AddInt32(&hung, 1)
+				res[i] = Result{I: i, OK: false, Key: "hang", What: fmt.Sprintf("no result within %s: deadlock, livelock or runaway computation", deadline)}
+			}
 		}(i)
 	}
 	wg.Wait()
